@@ -217,7 +217,12 @@ func runChild(mode string, stdin []byte) (stdout, stderr []byte, err error) {
 }
 
 func hasCrash(stderr string) bool {
-	return strings.Contains(stderr, "panic:") || strings.Contains(stderr, "fatal error:")
+	for _, k := range []string{"panic:", "fatal error:", "fatal:", "SIGSEGV", "unexpected fault", "unexpected signal"} {
+		if strings.Contains(stderr, k) {
+			return true
+		}
+	}
+	return false
 }
 
 func oneSide(mode, src string) front {
@@ -404,7 +409,8 @@ func buildCombined(dir string, goSrcs map[int][]byte) (bin string, errs map[int]
 }
 
 type natResult struct {
-	Status   string // ok | run-timeout
+	CPU      time.Duration
+	Status   string // ok | run-timeout | run-unjudged
 	Stdout   string
 	Stderr   string
 	ExitCode int
@@ -412,12 +418,19 @@ type natResult struct {
 	Rep      report
 }
 
-// runNative runs program k of the combined binary (the programs finish in milliseconds); a run that exceeds 15 s is
-// repeated once with two minutes before it is believed to hang (the machine is shared).
+// hangCPU: a native program (they all finish within milliseconds of CPU time) that was killed at the time limit is
+// judged to hang only if it consumed this much CPU time, i.e. it was spinning and not merely starved by other load.
+const hangCPU = 2 * time.Second
+
+// runNative runs program k of the combined binary; a run that exceeds 15 s without having burnt hangCPU is repeated
+// once with two minutes (the machine is shared); no verdict is drawn from the wall clock alone.
 func runNative(bin string, k int) (res natResult) {
 	res = runNativeT(bin, k, 15*time.Second)
-	if res.Status == "run-timeout" {
+	if res.Status == "run-timeout" && res.CPU < hangCPU {
 		res = runNativeT(bin, k, 120*time.Second)
+	}
+	if res.Status == "run-timeout" && res.CPU < hangCPU {
+		res.Status = "run-unjudged" // starved or blocked, not spinning: no verdict from the wall clock
 	}
 	return res
 }
@@ -433,6 +446,9 @@ func runNativeT(bin string, k int, limit time.Duration) (res natResult) {
 	err := run.Run()
 	res.Stdout, res.Stderr = so.String(), se.String()
 	res.Status = "ok"
+	if run.ProcessState != nil {
+		res.CPU = run.ProcessState.UserTime() + run.ProcessState.SystemTime()
+	}
 	if rctx.Err() != nil {
 		res.Status = "run-timeout"
 		return res
@@ -700,8 +716,13 @@ func checkItem(r *engine.R, rc *rec) {
 		panic("internal: program neither built nor failed: " + it.Tag)
 	}
 	nat := rc.nat
+	if nat.Status == "run-unjudged" {
+		r.Capped("native run of " + it.Tag + " neither finished nor consumed CPU time (starved machine?): not judged")
+		r.Outcome("not judged: native run starved")
+		return
+	}
 	if nat.Status == "run-timeout" {
-		r.Violation("native binary hangs: "+strings.TrimSuffix(strings.TrimSuffix(it.Sig, " ctx=meth"), " ctx=top"), fmt.Sprintf("%s\n--- VM finished (failed=%v) with stdout %q; the native binary did not finish in 15 s nor, run again, in 120 s", src, vmr.Failed, vmr.Stdout), src)
+		r.Violation("native binary hangs: "+strings.TrimSuffix(strings.TrimSuffix(it.Sig, " ctx=meth"), " ctx=top"), fmt.Sprintf("%s\n--- VM finished (failed=%v) with stdout %q; the native binary was still running at the time limit after burning more than 2 s of CPU time (it needs milliseconds)", src, vmr.Failed, vmr.Stdout), src)
 		r.Outcome("violation: native hang")
 		return
 	}
@@ -734,9 +755,17 @@ func checkItem(r *engine.R, rc *rec) {
 			fmt.Sprintf("%s\n--- %s\n--- VM failed=%v; native exit=%d %s", src, firstDiff(vmr.Stdout, nat.Stdout), vmr.Failed, nat.ExitCode, firstLines(nat.Stderr, 6)), src)
 	}
 	switch {
+	case !ok:
+		// stdout already diverged before either side stopped: a later uncaught error on one side is a consequence
+		// (described in the detail above), not a second finding
 	case statusDiffers && natFailed:
 		ok = false
-		r.Violation("native-only uncaught error: "+normHead(nat.Rep.Head),
+		sig := "native-only uncaught error: " + normHead(nat.Rep.Head)
+		if strings.Contains(src, "\ncatch ") {
+			// the VM caught it: which error class escapes is incidental
+			sig = "native-only uncaught error: raised inside do/catch and not caught"
+		}
+		r.Violation(sig,
 			fmt.Sprintf("construct: %s\n%s\n--- VM: succeeds, stdout %q\n--- native: exit=%d stdout %q stderr:\n%s", it.Sig, src, vmr.Stdout, nat.ExitCode, nat.Stdout, firstLines(nat.Stderr, 10)), src)
 	case statusDiffers:
 		ok = false
